@@ -98,6 +98,19 @@ func discharge(ob *Obligation, dir string, idx int, timeoutS int, cross bool) {
 			}
 		}
 	}
+	if strings.HasPrefix(ob.Kind, "cover") && len(ob.Hints) > 0 {
+		// try to exhibit one concrete witness first
+		fileH := filepath.Join(dir, fmt.Sprintf("o%05d.hint.smt2", idx))
+		if err := os.WriteFile(fileH, []byte(ob.ctx.Script(append(append([]*Term{}, ob.Asserts...), ob.Hints...), false)), 0o644); err == nil {
+			rh := runSolver(solvers[0], fileH, timeoutS)
+			atomic.AddInt64(&solverSeconds, rh.ms)
+			os.Remove(fileH)
+			if rh.res == "sat" {
+				ob.Result, ob.Solver, ob.Millis = "sat", rh.solver+"(witness hints)", rh.ms
+				return
+			}
+		}
+	}
 	script := ob.ctx.Script(ob.Asserts, true)
 	// extra model queries
 	if len(ob.queries) > 0 {
